@@ -531,6 +531,41 @@ def _align(tmpl_toks, real_toks):
     return pos, ops
 
 
+class _Block:
+    """a `{ .. }` block inside a function, presented like an Item"""
+    def __init__(self, src, start, end):
+        self.src, self.start, self.end = src, start, end
+        self.attrs_text = ""
+        self.headers = []
+
+    @property
+    def text(self):
+        return self.src[self.start:self.end]
+
+    @property
+    def line(self):
+        return self.src.count("\n", 0, self.start) + 1
+
+
+def _find_block(src, attrs):
+    """B1: the first `{ .. }` block after the token prefix `prefix` inside function `fn` (optionally of impl `impl`)"""
+    f = rs.find_item(src, "fn", attrs["fn"], impl=attrs.get("impl"))
+    base = f.toks[f.first].start
+    text = f.text
+    toks = rs.tokenize(text)
+    pat = rs.norm(attrs["prefix"])
+    hits = [j for j in range(len(toks) - len(pat) + 1) if [t.text for t in toks[j:j + len(pat)]] == pat]
+    if len(hits) != 1:
+        raise rs.ScanError("block prefix `%s` found %d times in fn %s" % (attrs["prefix"], len(hits), attrs["fn"]))
+    k = hits[0] + len(pat)
+    while k < len(toks) and toks[k].text != "{":
+        k += 1
+    if k >= len(toks):
+        raise rs.ScanError("no block after `%s`" % attrs["prefix"])
+    close = rs.match_close(toks, k)
+    return _Block(src, base + toks[k].start, base + toks[close].end)
+
+
 def expand(template_text, repo_root, read=None):
     """-> (verus_source, report).  report: list of dicts, one per item region"""
     read = read or (lambda p: open(p).read())
@@ -574,11 +609,17 @@ def expand(template_text, repo_root, read=None):
                 raise TransplantError("%s: interpolation `%s` not found" % (path, old))
             src = src.replace(old, new)
         try:
-            item = rs.find_item(src, kw, name, impl=attrs.get("impl"), nth=int(attrs["nth"]) if "nth" in attrs else None)
+            if kw == "block":
+                item = _find_block(src, attrs)
+            else:
+                item = rs.find_item(src, kw, name, impl=attrs.get("impl"), nth=int(attrs["nth"]) if "nth" in attrs else None)
         except rs.ScanError as e:
             raise TransplantError("%s: %s" % (path, e))
         real = item.text
         fired = []
+        if kw == "block":
+            fired.append({"rule": "B1", "n": 1, "note": "block `{ .. }` following `%s` inside fn %s verified as the body of a function whose header (parameters = the variables "
+                                                         "the block uses, with their types) is supplied by the template; the statement header itself is not verified" % (attrs["prefix"], attrs["fn"])})
         if item.attrs_text.strip():
             fired.append({"rule": "R1", "n": 1, "note": "attributes dropped: " + " ".join(item.attrs_text.split())})
         rules_s = attrs.get("rules", "")
